@@ -175,11 +175,7 @@ Theorem C05_product_lookup : forall ps slots table range names,
        exists r, In r runs /\ l = product_label names types (r_index r) (r_params r)
                  /\ d = data_of slots (r_params r)) /\
     labels_nodup (map fst (oc_result oc)) = true.
-Proof.
-  intros ps slots table range names en keys types runs Nk Hph Hn Hd.
-  apply product_observe_lookup; auto.
-  exact (dim_names_inj src_cfg keys names eq_refl eq_refl Nk Hn).
-Qed.
+Proof. exact (product_observe_lookup_cfg src_cfg eq_refl eq_refl). Qed.
 Print Assumptions C05_product_lookup.
 
 (* Sequential mode: any parameters (a key may be swept twice), any vector lengths. *)
@@ -198,12 +194,7 @@ Theorem C05_sequential_lookup : forall ps slots table range,
        exists r, In r runs /\ l = custom_label names (hd 0 (r_index r)) (r_params r)
                  /\ d = data_of slots (r_params r)) /\
     labels_nodup (map fst (oc_result oc)) = true.
-Proof.
-  intros ps slots table range en runs Hph.
-  destruct (dim_names_total src_cfg (unique (map p_key en)) eq_refl) as (names & Hn & _).
-  destruct (sequential_observe_lookup src_cfg ps slots table range names Hph Hn eq_refl) as (oc & H).
-  exists names, oc. split; [exact Hn | exact H].
-Qed.
+Proof. exact (sequential_observe_lookup_cfg src_cfg eq_refl eq_refl). Qed.
 Print Assumptions C05_sequential_lookup.
 
 (* Custom mode: placeholders whose widths add up to the number of selected columns (column_range may be
@@ -227,14 +218,7 @@ Theorem C05_custom_lookup : forall ps slots table range rows,
        exists r, In r runs /\ l = custom_label names (hd 0 (r_index r)) (r_params r)
                  /\ d = data_of slots (r_params r)) /\
     labels_nodup (map fst (oc_result oc)) = true.
-Proof.
-  intros ps slots table range rows en total runs Hph Hrows H0 H1.
-  destruct (dim_names_total src_cfg (unique (map p_key en)) eq_refl) as (names & Hn & _).
-  assert (Ht : custom_table src_cfg table range = Some rows).
-  { subst rows. destruct range as [[lo hi]|]; reflexivity. }
-  destruct (custom_observe_lookup src_cfg ps slots table range rows names Hph Ht H0 H1 Hn eq_refl) as (oc & H).
-  exists names, oc. split; [exact Hn | exact H].
-Qed.
+Proof. exact (custom_observe_lookup_cfg src_cfg eq_refl eq_refl eq_refl). Qed.
 Print Assumptions C05_custom_lookup.
 
 (* The coordinates _add_product_parameters attaches are the labels the specification (spec_label, used by
@@ -276,9 +260,8 @@ Theorem C05_dask_product_labels : forall norm names slots en,
                  /\ d = data_of slots (r_params r)) /\
     labels_nodup (map fst res) = true.
 Proof.
-  intros norm names slots en Hp N NN cells. split.
-  - apply dask_product_cells_are_space; auto.
-  - apply dask_product_lookup; auto.
+  intros norm names slots en Hp N NN cells. split;
+    [apply dask_product_cells_are_space | apply dask_product_lookup]; auto.
 Qed.
 Print Assumptions C05_dask_product_labels.
 
@@ -301,18 +284,7 @@ Definition C05_dask_product_accepts_full : Prop :=
    MultiIndex, finding C05-dask-product-duplicates -- if they are not. *)
 Theorem C05_dask_product_accepts_decided :
   if cf_dask_product_dedup src_cfg then C05_dask_product_accepts_full else ~ C05_dask_product_accepts_full.
-Proof.
-  destruct (cf_dask_product_dedup src_cfg) eqn:E.
-  - intros ps slots table range names en Nk Hph Hn Hres.
-    destruct (dask_product_observe src_cfg ps slots table range names Nk Hph Hn
-                (dim_names_inj src_cfg _ names eq_refl eq_refl Nk Hn) Hres (or_introl E)) as (oc & H & _).
-    rewrite H. discriminate.
-  - intros H.
-    specialize (H [mkParam "pipeline.charge_collection.m1.arguments.a" (Lit [Sc 8; Sc 8]) true] [] [] None
-                  [("pipeline.charge_collection.m1.arguments.a", "a")]
-                  ltac:(repeat constructor; simpl; intuition) eq_refl eq_refl eq_refl).
-    apply H. apply dask_product_duplicates_witness. exact E.
-Qed.
+Proof. exact (dask_product_accepts_decided src_cfg eq_refl eq_refl). Qed.
 Print Assumptions C05_dask_product_accepts_decided.
 
 (* What holds either way: when no list repeats a value (or the lists are de-duplicated) the request is run,
@@ -336,11 +308,7 @@ Theorem C05_dask_product_accepts_partial : forall ps slots table range names,
        exists r, In r (spec_product en) /\ l = spec_label_dask Product names en (r_index r) (r_params r)
                  /\ d = data_of slots (r_params r)) /\
     labels_nodup (map fst (oc_result oc)) = true.
-Proof.
-  intros ps slots table range names en keys Nk Hph Hn Hres Hdup.
-  apply dask_product_observe; auto.
-  exact (dim_names_inj src_cfg keys names eq_refl eq_refl Nk Hn).
-Qed.
+Proof. exact (dask_product_observe_cfg src_cfg eq_refl eq_refl). Qed.
 Print Assumptions C05_dask_product_accepts_partial.
 
 (* Custom mode on the dask path (convert_custom_data as read from the source): the cell of a table row
@@ -359,11 +327,7 @@ Definition C05_dask_sequential_full : Prop :=
    [1,2,3] x [10,12]: the lists are zipped, DESIGN F12, finding C05-dask-sequential-zips -- otherwise. *)
 Theorem C05_dask_sequential_decided :
   if cf_dask_sequential_rows src_cfg then C05_dask_sequential_full else ~ C05_dask_sequential_full.
-Proof.
-  destruct (cf_dask_sequential_rows src_cfg) eqn:E.
-  - intros get ps. apply dask_seq_cells_rows. exact E.
-  - intros H. exact (dask_seq_cells_zip_witness src_cfg E (H _ _)).
-Qed.
+Proof. exact (dask_sequential_decided src_cfg). Qed.
 Print Assumptions C05_dask_sequential_decided.
 
 (* What holds either way: with one enabled parameter the rows are the requested runs, in order. *)
